@@ -13,7 +13,8 @@ description of the violated clause, or None.  A relevant disagreement on which t
 objection means the tie is broken but no failing input is exhibited (no-failing-input-found)."""
 import re
 
-ADDRS = ["4:c0000201:3478", "4:c0000201:3479", "6:20010db8000000000000000000000001:3478", "4:0a000001:9"]
+ADDRS = ["4:c0000201:3478", "4:c0000201:3479", "6:20010db8000000000000000000000001:3478", "4:0a000001:9",
+         "6:00000000000000000000ffffc0000207:3478", "4:c0000207:3478"]
 TIDS = [0x01, 0x0203_0405_0607_0809_0a0b_0c0d, 0xffff_ffff_ffff_ffff_ffff_ffff, 0x2112_a442, 0x7000_0000_0000_0000_0000_0001]
 
 
